@@ -16,6 +16,7 @@ use crate::util::*;
 use hcobs::verif::{VerifDecoder, VerifEncoder};
 use hcobs::{Decoder, DecodingError, Encoder};
 use owning_iovec::{ByteArena, ConsumingIovec, OwningIovec, ZeroCopySink};
+use owning_iovec::Backref; // track apileft-prefill
 use std::io::IoSlice;
 use std::num::NonZeroUsize;
 
@@ -111,6 +112,8 @@ struct CodecWExec {
     dec_errors: usize,
     /// drained ++ stable bytes after the previous op (C09 prefix clause, checked op by op)
     prev_out: Vec<u8>,
+    /// (track apileft-prefill) bookkeeping of `enc_from2` / `dec_from2` cases
+    pre: PreTrack,
 }
 
 /// (helper decw) Reference HCOBS decoder for the direct oracle of the decoder session: a plain
@@ -195,6 +198,12 @@ impl CodecWExec {
     /// produces for the logical input in one call ("a failed or short read leaves the output
     /// unaffected apart from the bytes actually read"; also split/method independence).
     fn end_to_end(&mut self, so: &mut StepOut, v: &OwningIovec<'static>) {
+        if self.pre.active {
+            // (track apileft-prefill) a caller placeholder may legitimately still be pending
+            let flat = v.flatten();
+            self.pre_final(so, flat);
+            return;
+        }
         let mut all = self.drained.clone();
         match v.flatten() {
             Ok(rest) => all.extend_from_slice(&rest),
@@ -216,6 +225,11 @@ impl CodecWExec {
                 "C17 encoder output (drained ++ final) differs from a one-call encoding of the payloads plus the bytes the readers delivered".into(),
             );
             so.violations.push("C02 encoder output depends on how the input was fed".into());
+            if !self.prefill.is_empty() {
+                // (track apileft-prefill)
+                so.violations.push("C01 new_from_iovec: drained ++ final differs from prefill ++ reference encoding".into());
+                so.violations.push("C09 new_from_iovec: drained ++ final differs from prefill ++ reference encoding".into());
+            }
         }
     }
 
@@ -342,7 +356,7 @@ impl CodecWExec {
             }
             // ---- C09 oracle: lag bounded by one arena chunk + one HCOBS chunk and its header
             let bound = if self.is_enc { MAX_CHUNK + self.limits.1.max(self.limits.0) + 2 } else { 0 };
-            if lag > bound {
+            if lag > bound && !self.pre.caller_pending() {
                 so.violations.push(format!(
                     "C09 {} bytes produced but not consumable exceed the bound {} ({})",
                     lag,
@@ -364,6 +378,7 @@ impl CodecWExec {
                 if mine.is_empty() { "-".to_string() } else { mine.iter().map(|(o, _)| format!("c{}", o)).collect::<Vec<_>>().join(",") }
             ));
             so.obs.push(format!("G lag={}", lag));
+            self.pre_note(&bytes, so); // track apileft-prefill
             let live_bytes: usize = mine.iter().map(|(_, l)| *l).sum();
             self.max_live = self.max_live.max(live_bytes);
         } else {
@@ -428,6 +443,18 @@ impl Exec for CodecWExec {
                     }
                 };
             }
+            // >>> track apileft-prefill
+            [op @ ("enc_from2" | "dec_from2"), script, rest @ ..] => {
+                if !self.step_from2(op, script, rest) {
+                    return StepOut::bad();
+                }
+            }
+            ["post_fill", k, hex] => {
+                if !self.step_post_fill(k, hex, &mut so) {
+                    return StepOut::bad();
+                }
+            }
+            // <<< track apileft-prefill
             ["take_iovec"] => {
                 if self.failed {
                     return StepOut::bad();
@@ -816,6 +843,7 @@ impl Exec for CodecWExec {
                         Ok(v) => {
                             so.obs.push("R ok".into());
                             self.dec_finish_oracle(&mut so, true, Some(&v));
+                            self.dec_final(&mut so, &v); // track apileft-prefill
                             Codec::Done(v)
                         }
                         Err(e) => {
@@ -829,6 +857,7 @@ impl Exec for CodecWExec {
                         Ok(v) => {
                             so.obs.push("R ok".into());
                             self.dec_finish_oracle(&mut so, true, Some(&v));
+                            self.dec_final(&mut so, &v); // track apileft-prefill
                             Codec::Done(v)
                         }
                         Err(e) => {
@@ -914,10 +943,18 @@ impl Family for CodecWFamily {
             dec_rebase: false,
             dec_errors: 0,
             prev_out: vec![],
+            pre: PreTrack::default(),
         })
     }
 
+    fn enumerated(&self, _thorough: bool) -> Vec<Vec<String>> {
+        prefill_enumerated() // track apileft-prefill
+    }
+
     fn gen_case(&self, rng: &mut Rng, idx: u64, thorough: bool) -> Vec<String> {
+        if idx % 8 == 3 {
+            return gen_prefill_case(rng); // track apileft-prefill (idx % 4 == 1 are helper decw's sessions)
+        }
         let mut ops = Vec::new();
         let tiny = rng.chance(2, 3);
         let lim = if tiny {
@@ -1257,3 +1294,472 @@ fn gen_dec_session(rng: &mut Rng) -> Vec<String> {
     }
     ops
 }
+
+// ======================================================================================================
+// >>> track apileft-prefill: `Encoder::new_from_iovec` / `Decoder::new_from_iovec` on a richer PRE-FILLED
+// iovec (audit gap 15).
+//
+// `enc_from2 <script> <limits…>` / `dec_from2 <script> <limits…>`: the caller builds the iovec through real
+// `OwningIovec` calls and only then hands it over.  Script = comma list of `p<hex>` (`push`), `b<hex>`
+// (`push_borrowed`), `c<hex>` (`push_copy`), `r<n>` (`register_patch(&[0; n])`, the `Backref` is kept as
+// caller token number = order of registration), `f<k>:<hex>` (`backfill_or_panic(token k, …)`), `d<k>`
+// (`consumer().consume(k)`), `a<k>` (`consumer().advance_slices(k)`); `-` = empty script.
+// `post_fill <k> <hex>`: the caller fills a placeholder that was still pending at the hand-over.  The codec
+// exposes only the READ side of its iovec (`consumer()`), so from safe code this is possible only once the
+// iovec is handed back (`finish` / `take_iovec`).
+//
+// Direct oracle (independent of the model): drained ++ flatten == prefill bytes (with the caller's fills) ++
+// reference encoding (decoding) of the whole input, as soon as no caller placeholder is pending; while one is
+// pending, nothing at or behind it is consumable (everything the codec produced is hidden: the lag is
+// unbounded by design and the constant-bound oracle is suspended) and what is consumable is a prefix of the
+// prefill; every drained ++ stable snapshot taken along the way is a prefix of the final output.
+
+#[derive(Default)]
+struct PreTrack {
+    active: bool,
+    /// caller tokens in registration order (bit-copied at every use: `Backref` is not `Clone`)
+    tokens: Vec<Backref>,
+    /// caller placeholders: (offset in `prefill`, length, still pending)
+    holes: Vec<(usize, usize, bool)>,
+    /// drained ++ stable after every op
+    snapshots: Vec<Vec<u8>>,
+    /// the codec finished: the logical input is complete
+    whole_input: bool,
+    /// a drain inside the caller's script removed more than the stable prefix held
+    overdrain: bool,
+}
+
+impl PreTrack {
+    fn caller_pending(&self) -> bool {
+        self.holes.iter().any(|h| h.2)
+    }
+    fn first_pending(&self) -> Option<usize> {
+        self.holes.iter().filter(|h| h.2).map(|h| h.0).min()
+    }
+}
+
+enum PreItem {
+    Push(Vec<u8>),
+    PushBorrowed(Vec<u8>),
+    PushCopy(Vec<u8>),
+    Register(usize),
+    Fill(usize, Vec<u8>),
+    Consume(usize),
+    Advance(usize),
+}
+
+fn parse_pre_script(s: &str) -> Option<Vec<PreItem>> {
+    if s == "-" {
+        return Some(vec![]);
+    }
+    let mut out = Vec::new();
+    for t in s.split(',') {
+        let (c, arg) = (t.chars().next()?, &t[1..]);
+        out.push(match c {
+            'p' => PreItem::Push(from_hex(arg)?),
+            'b' => PreItem::PushBorrowed(from_hex(arg)?),
+            'c' => PreItem::PushCopy(from_hex(arg)?),
+            'r' => PreItem::Register(arg.parse().ok()?),
+            'd' => PreItem::Consume(arg.parse().ok()?),
+            'a' => PreItem::Advance(arg.parse().ok()?),
+            'f' => {
+                let (k, hex) = arg.split_once(':')?;
+                if hex.contains(':') {
+                    return None;
+                }
+                PreItem::Fill(k.parse().ok()?, from_hex(hex)?)
+            }
+            _ => return None,
+        });
+    }
+    Some(out)
+}
+
+/// `consume(k)` / `advance_slices(k)` with the bytes that left: (return value, removed bytes, removed count)
+fn drain_on(c: &mut ConsumingIovec<'_>, k: usize, by_bytes: bool) -> (usize, Vec<u8>, usize) {
+    let mut snap = Vec::new();
+    for s in c.stable_prefix() {
+        snap.extend_from_slice(s);
+    }
+    let before = c.total_size();
+    let n = if by_bytes { c.advance_slices(k) } else { c.consume(k) };
+    let removed = before - c.total_size();
+    snap.truncate(removed.min(snap.len()));
+    (n, snap, removed)
+}
+
+impl CodecWExec {
+    fn step_from2(&mut self, op: &str, script: &str, rest: &[&str]) -> bool {
+        let (Some(items), Some(lim)) = (parse_pre_script(script), parse_limits(rest)) else { return false };
+        // a fill must name a token registered earlier in the script
+        let mut regs = 0usize;
+        for it in &items {
+            match it {
+                PreItem::Register(_) => regs += 1,
+                PreItem::Fill(k, _) if *k >= regs => return false,
+                _ => {}
+            }
+        }
+        self.is_enc = op == "enc_from2";
+        self.pre.active = true;
+        self.streaming = false;
+        let mut iov: OwningIovec<'static> = OwningIovec::new();
+        for it in items {
+            match it {
+                PreItem::Push(bytes) => {
+                    self.prefill.extend_from_slice(&bytes);
+                    let s = self.add_buf(bytes);
+                    iov.push(s);
+                }
+                PreItem::PushBorrowed(bytes) => {
+                    self.prefill.extend_from_slice(&bytes);
+                    let s = self.add_buf(bytes);
+                    iov.push_borrowed(s);
+                }
+                PreItem::PushCopy(bytes) => {
+                    self.prefill.extend_from_slice(&bytes);
+                    iov.push_copy(&bytes);
+                }
+                PreItem::Register(n) => {
+                    let off = self.prefill.len();
+                    let pat = vec![0u8; n];
+                    self.prefill.extend_from_slice(&pat);
+                    let tok = iov.register_patch(&pat);
+                    self.pre.tokens.push(tok);
+                    self.pre.holes.push((off, n, n > 0));
+                }
+                PreItem::Fill(k, bytes) => {
+                    let tok: Backref = unsafe { std::ptr::read(&self.pre.tokens[k]) };
+                    iov.backfill_or_panic(tok, &bytes); // wrong size / not pending: the documented panic
+                    let (off, n, _) = self.pre.holes[k];
+                    self.prefill[off..off + n].copy_from_slice(&bytes);
+                    self.pre.holes[k].2 = false;
+                }
+                PreItem::Consume(k) | PreItem::Advance(k) => {
+                    let by_bytes = matches!(it, PreItem::Advance(_));
+                    let (_, took, removed) = drain_on(&mut iov.consumer(), k, by_bytes);
+                    if took.len() != removed {
+                        self.pre.overdrain = true; // reported by `pre_note`
+                    }
+                    self.drained.extend_from_slice(&took);
+                }
+            }
+        }
+        self.limits = lim.unwrap_or((PROD_INIT, PROD_SUB));
+        self.codec = match (self.is_enc, lim) {
+            (true, None) => Codec::Enc(Encoder::new_from_iovec(iov)),
+            (true, Some((a, b))) => match VerifEncoder::new_from_iovec(iov, a, b) {
+                Some(e) => Codec::VEnc(e),
+                None => return false,
+            },
+            (false, None) => Codec::Dec(Decoder::new_from_iovec(iov)),
+            (false, Some((a, b))) => match VerifDecoder::new_from_iovec(iov, a, b) {
+                Some(d) => Codec::VDec(d),
+                None => return false,
+            },
+        };
+        true
+    }
+
+    fn step_post_fill(&mut self, k: &str, hex: &str, so: &mut StepOut) -> bool {
+        let (Ok(k), Some(bytes)) = (k.parse::<usize>(), from_hex(hex)) else { return false };
+        if k >= self.pre.tokens.len() {
+            return false;
+        }
+        let Codec::Done(v) = &mut self.codec else { return false };
+        let tok: Backref = unsafe { std::ptr::read(&self.pre.tokens[k]) };
+        v.backfill_or_panic(tok, &bytes);
+        let (off, n, _) = self.pre.holes[k];
+        self.prefill[off..off + n].copy_from_slice(&bytes);
+        self.pre.holes[k].2 = false;
+        if !self.failed {
+            let flat = match &self.codec {
+                Codec::Done(v) => v.flatten(),
+                _ => return false,
+            };
+            if self.pre.whole_input {
+                self.pre_final(so, flat);
+            }
+        }
+        true
+    }
+
+    /// What the codec alone makes of the whole logical input (a fresh real codec, one call).
+    fn pre_reference(&self) -> Option<Vec<u8>> {
+        let prod = self.limits == (PROD_INIT, PROD_SUB);
+        if self.is_enc {
+            if prod {
+                let mut e = Encoder::new();
+                e.encode_copy(&self.logical_input);
+                e.finish().flatten().ok()
+            } else {
+                let mut e = VerifEncoder::new_from_iovec(OwningIovec::new(), self.limits.0, self.limits.1)?;
+                e.encode_copy(&self.logical_input);
+                e.finish().flatten().ok()
+            }
+        } else if prod {
+            let mut d = Decoder::new();
+            d.decode_copy(&self.logical_input).ok()?;
+            d.finish().ok()?.flatten().ok()
+        } else {
+            let mut d = VerifDecoder::new_from_iovec(OwningIovec::new(), self.limits.0, self.limits.1)?;
+            d.decode_copy(&self.logical_input).ok()?;
+            d.finish().ok()?.flatten().ok()
+        }
+    }
+
+    /// The codec is done (`finish` succeeded): compare everything that came out with prefill ++ reference.
+    fn pre_final(&mut self, so: &mut StepOut, flat: Result<Vec<u8>, Vec<u8>>) {
+        self.pre.whole_input = true;
+        let what = if self.is_enc { "encoding" } else { "decoding" };
+        let Some(reference) = self.pre_reference() else {
+            so.violations.push(format!("C01 new_from_iovec: the codec finished but a fresh codec rejects the same input ({})", what));
+            return;
+        };
+        let mut want = self.prefill.clone();
+        want.extend_from_slice(&reference);
+        let mut all = self.drained.clone();
+        match flat {
+            Ok(rest) => {
+                if self.pre.caller_pending() {
+                    so.violations.push("C04 flatten() succeeded while a caller placeholder registered before new_from_iovec is pending".into());
+                }
+                all.extend_from_slice(&rest);
+                if all != want {
+                    for p in ["C01", "C09", "C02", "C17"] {
+                        so.violations.push(format!(
+                            "{} new_from_iovec: drained ++ final ({} bytes) differs from prefill ++ reference {} ({} bytes)",
+                            p, all.len(), what, want.len()
+                        ));
+                    }
+                }
+                for s in &self.pre.snapshots {
+                    if s.len() > all.len() || s[..] != all[..s.len()] {
+                        so.violations.push("C09 new_from_iovec: a drained ++ stable snapshot is not a prefix of the final output".into());
+                        break;
+                    }
+                }
+            }
+            Err(stable) => {
+                if !self.pre.caller_pending() {
+                    so.violations.push("C04 placeholder still pending after finish although the caller has none pending".into());
+                }
+                all.extend_from_slice(&stable);
+                let cut = self.pre.first_pending().unwrap_or(0);
+                if all.len() > cut || all[..] != want[..all.len().min(want.len())] {
+                    for p in ["C01", "C09", "C04"] {
+                        so.violations.push(format!(
+                            "{} new_from_iovec: with a caller placeholder pending at offset {}, drained ++ stable ({} bytes) is not a prefix of the prefill before it",
+                            p, cut, all.len()
+                        ));
+                    }
+                }
+            }
+        }
+    }
+
+    fn dec_final(&mut self, so: &mut StepOut, v: &OwningIovec<'static>) {
+        if self.pre.active || !self.prefill.is_empty() {
+            let flat = v.flatten();
+            self.pre_final(so, flat);
+        }
+    }
+
+    /// After every op of a prefilled case: what is consumable so far.
+    fn pre_note(&mut self, stable: &[u8], so: &mut StepOut) {
+        if !self.pre.active {
+            return;
+        }
+        if self.pre.overdrain {
+            self.pre.overdrain = false;
+            so.violations.push("C04 a drain in the caller's script removed more bytes than were consumable".into());
+        }
+        let mut snap = self.drained.clone();
+        snap.extend_from_slice(stable);
+        if let Some(cut) = self.pre.first_pending() {
+            if snap.len() > cut || snap[..] != self.prefill[..snap.len().min(self.prefill.len())] {
+                for p in ["C09", "C04"] {
+                    so.violations.push(format!(
+                        "{} new_from_iovec: bytes at or behind the caller placeholder pending at offset {} are consumable ({} drained ++ stable)",
+                        p, cut, snap.len()
+                    ));
+                }
+            }
+        }
+        if self.pre.snapshots.len() < 64 && snap.len() <= 1 << 16 {
+            self.pre.snapshots.push(snap);
+        }
+    }
+}
+
+fn pre_limits(lim: &str) -> Option<(usize, usize)> {
+    let mut it = lim.split(' ');
+    Some((it.next()?.parse().ok()?, it.next()?.parse().ok()?))
+}
+
+/// The wire image of `payload` under `lim` (`prod` or `a b`), from the real encoder.
+fn pre_wire(lim: &str, payload: &[u8]) -> Vec<u8> {
+    match pre_limits(lim) {
+        None => {
+            let mut e = Encoder::new();
+            e.encode_copy(payload);
+            e.finish().flatten().unwrap_or_default()
+        }
+        Some((a, b)) => match VerifEncoder::new_from_iovec(OwningIovec::new(), a, b) {
+            Some(mut e) => {
+                e.encode_copy(payload);
+                e.finish().flatten().unwrap_or_default()
+            }
+            None => vec![],
+        },
+    }
+}
+
+/// The ops after the constructor of a prefilled case: feeds (for a decoder: a valid wire image cut in
+/// pieces), drains, `finish`, then the caller fills what it left pending, drains.
+fn pre_tail(ops: &mut Vec<String>, decoder: bool, lim: &str, payload: &[u8], cuts: &[usize], methods: &[&str], drains: &[&str], pending: &[(usize, usize)]) {
+    pre_tail_x(ops, decoder, lim, payload, cuts, methods, drains, pending, None)
+}
+
+/// `damage`: (position, xor mask) applied to the wire image of a decoder case (the error paths: the
+/// decoder is consumed by the error, the iovec - and with it the caller's pending placeholders - is gone).
+#[allow(clippy::too_many_arguments)]
+fn pre_tail_x(ops: &mut Vec<String>, decoder: bool, lim: &str, payload: &[u8], cuts: &[usize], methods: &[&str], drains: &[&str], pending: &[(usize, usize)], damage: Option<(usize, u8)>) {
+    let mut data = if decoder { pre_wire(lim, payload) } else { payload.to_vec() };
+    if let (true, Some((pos, mask))) = (decoder, damage) {
+        if !data.is_empty() {
+            let k = pos % data.len();
+            data[k] ^= mask;
+        }
+    }
+    let mut pos = 0usize;
+    let mut k = 0usize;
+    let mut cuts: Vec<usize> = cuts.iter().map(|c| (*c).min(data.len())).collect();
+    cuts.push(data.len());
+    cuts.sort();
+    for c in cuts {
+        let piece = &data[pos..c];
+        pos = c;
+        ops.push(format!("feed {} {}", methods[k % methods.len()], to_hex(piece)));
+        let d = drains[k % drains.len()];
+        if !d.is_empty() {
+            ops.push(d.to_string());
+        }
+        k += 1;
+    }
+    ops.push("finish".into());
+    ops.push("drain_bytes 3".into());
+    for (j, (tok, n)) in pending.iter().enumerate() {
+        ops.push(format!("post_fill {} {}", tok, to_hex(&(0..*n).map(|x| 0xC0u8.wrapping_add((16 * j + x) as u8)).collect::<Vec<u8>>())));
+        if j % 2 == 0 {
+            ops.push("drain_slices 1".into());
+        }
+    }
+    ops.push("drain_all".into());
+}
+
+/// Fixed prefill shapes (script, caller tokens still pending at the hand-over as (token, length)).
+fn prefill_enumerated() -> Vec<Vec<String>> {
+    let shapes: Vec<(&str, Vec<(usize, usize)>)> = vec![
+        ("-", vec![]),
+        ("p0102", vec![]),
+        ("b~10x70", vec![]),
+        ("c~20x5", vec![]),
+        ("p~30x65,d1", vec![]),
+        ("c~40x10,a4", vec![]),
+        ("b~10x70,c0102,p~50x300,d1,a7", vec![]),
+        ("c01,r2,f0:aabb", vec![]),
+        ("r2,f0:0102,d1", vec![]),
+        ("c0304,r2", vec![(0, 2)]),
+        ("r1", vec![(0, 1)]),
+        ("b~10x70,r3,c0506", vec![(0, 3)]),
+        ("c01,r1,r2,f1:0708", vec![(0, 1)]),
+        ("b~10x70,c0102,d1,r1,p~60x65", vec![(0, 1)]),
+        ("r0,c01,f0:-", vec![]),
+        ("c~70x64,r8,b~80x257,r1", vec![(1, 1), (0, 8)]),
+    ];
+    let payload: Vec<u8> = vec![0x31, 0x32, 0x33, 0x34, 0xFE, 0xFE, 0xFD, 0x35, 0xFE, 0xFD];
+    let mut out = Vec::new();
+    for (k, (script, pending)) in shapes.iter().enumerate() {
+        for decoder in [false, true] {
+            let lim = match k % 4 {
+                0 | 1 => "3 5",
+                2 => "2 7",
+                _ => "prod",
+            };
+            let mut ops = vec![format!("{}_from2 {} {}", if decoder { "dec" } else { "enc" }, script, lim)];
+            let methods: &[&str] = match k % 3 {
+                0 => &["c", "b"],
+                1 => &["b", "a", "c"],
+                _ => &["f", "c"],
+            };
+            let drains: &[&str] = match k % 3 {
+                0 => &["drain_all", ""],
+                1 => &["", "drain_slices 1", "drain_bytes 2"],
+                _ => &["drain_bytes 70", "drain_all"],
+            };
+            pre_tail(&mut ops, decoder, lim, &payload, &[1 + k % 5, 6], methods, drains, pending);
+            out.push(ops);
+        }
+    }
+    out
+}
+
+/// A random prefilled case: a random script of caller calls, then the usual call mix.
+fn gen_prefill_case(rng: &mut Rng) -> Vec<String> {
+    let lim = rng.pick(&["3 5", "3 5", "1 1", "2 7", "4 300", "252 600", "prod", "prod"]).to_string();
+    let decoder = rng.chance(1, 3);
+    let n_items = rng.range(1, 7);
+    let mut items: Vec<String> = Vec::new();
+    // (token, length) of caller placeholders still pending
+    let mut pending: Vec<(usize, usize)> = Vec::new();
+    let mut regs = 0usize;
+    for _ in 0..n_items {
+        match rng.below(9) {
+            0 | 1 | 2 | 3 => {
+                let n = *rng.pick(&[0usize, 1, 3, 63, 64, 65, 200, 256, 257, 300]);
+                let kind = *rng.pick(&["p", "b", "c"]);
+                items.push(format!("{}{}", kind, run_token(rng.range(0, 200) as u8, n)));
+            }
+            4 | 5 => {
+                let n = *rng.pick(&[1usize, 1, 2, 3, 8, 0]);
+                items.push(format!("r{}", n));
+                if n > 0 {
+                    pending.push((regs, n));
+                } else {
+                    items.push(format!("f{}:-", regs));
+                }
+                regs += 1;
+            }
+            6 => {
+                if !pending.is_empty() {
+                    let j = rng.below(pending.len() as u64) as usize;
+                    let (tok, n) = pending.remove(j);
+                    items.push(format!("f{}:{}", tok, run_token(0xD0 + tok as u8, n)));
+                }
+            }
+            7 => items.push(format!("d{}", rng.range(0, 3))),
+            _ => items.push(format!("a{}", *rng.pick(&[0usize, 1, 5, 64, 70, 400]))),
+        }
+    }
+    let script = if items.is_empty() { "-".to_string() } else { items.join(",") };
+    let mut ops = vec![format!("{}_from2 {} {}", if decoder { "dec" } else { "enc" }, script, lim)];
+    let tiny = lim != "prod" && lim != "252 600";
+    let len = if tiny { rng.range(0, 30) } else { *rng.pick(&[0u64, 3, 251, 252, 253, 300, 700]) } as usize;
+    let dens = *rng.pick(&[0u64, 8, 64, 200]);
+    let payload = gen_bytes(len, rng.next() >> 16, dens);
+    let ncuts = rng.range(0, 4) as usize;
+    let cuts: Vec<usize> = (0..ncuts).map(|_| rng.range(0, (len + 4) as u64) as usize).collect();
+    let methods: Vec<&str> = (0..4).map(|_| *rng.pick(&["b", "c", "a", "f"])).collect();
+    let drains: Vec<&str> = (0..3).map(|_| *rng.pick(&["", "drain_all", "drain_slices 1", "drain_bytes 5", "drain_bytes 70"])).collect();
+    // the caller fills what it left pending in a random order
+    let mut order = pending.clone();
+    for i in (1..order.len()).rev() {
+        let j = rng.below((i + 1) as u64) as usize;
+        order.swap(i, j);
+    }
+    let damage = if decoder && rng.chance(1, 4) { Some((rng.next() as usize, *rng.pick(&[0x01u8, 0x80, 0xFF, 0xFD]))) } else { None };
+    pre_tail_x(&mut ops, decoder, &lim, &payload, &cuts, &methods, &drains, &order, damage);
+    ops
+}
+// <<< track apileft-prefill
